@@ -21,6 +21,7 @@ structure Opts where
   moduleConsts : Bool    -- --default-enum-style moduleconsts / --constified-enum-module
   manuallyDrop : Bool    -- --default-non-copy-union-style manually_drop
   flexDst : Bool         -- --flexarray-dst
+  representOps : Bool    -- --represent-cxx-operators
   deriving Repr, Inhabited
 
 structure Facts where
@@ -55,7 +56,8 @@ inductive Err where
   | e0587          -- conflicting packed and align hints
   | e0223          -- ambiguous associated type (`Alias::Type`)
   | e0308          -- mismatched types
-  | e0392          -- unused type parameter
+  | e0392          -- unused type parameter (and the E0282 it entails in derives)
+  | identPanic     -- bindgen panics: "… is not a valid Ident"
   | dupName        -- E0428 not explained by the name models
   | other
   deriving DecidableEq, Repr, Inhabited
@@ -68,7 +70,7 @@ inductive Finding where
   | derive_ord_without_eq | opaque_array_no_partialord | newtype_alias_constant | param_shadows_newtype
   | packed_contains_aligned | impl_on_packed_field_ref | empty_union | layout_assertion_fails | struct_layout_panic
   | packed_no_copy_debug | union_field_wrapper_unsafe | union_bool_bitfield_cast | scoped_keyword_name | cnaming_scoped_name
-  | derive_member_trait_missing | moduleconsts_enum_alias | union_bitfield_manually_drop | flexarray_dst_unused_param | tag_typedef_collision
+  | derive_member_trait_missing | moduleconsts_enum_alias | union_bitfield_manually_drop | flexarray_dst_unused_param | tag_typedef_collision | cxx_operator_invalid_ident
   deriving DecidableEq, Repr, Inhabited
 
 def Finding.name : Finding → String
@@ -91,6 +93,7 @@ def Finding.name : Finding → String
   | .union_bitfield_manually_drop => "union_bitfield_manually_drop"
   | .flexarray_dst_unused_param => "flexarray_dst_unused_param"
   | .tag_typedef_collision => "tag_typedef_collision"
+  | .cxx_operator_invalid_ident => "cxx_operator_invalid_ident"
 
 /-- inputs on which the derive analyses are known to disagree with what rustc needs (C08's subject) -/
 def deriveFragile (o : Opts) (f : Facts) : Bool :=
@@ -108,6 +111,7 @@ def classify (o : Opts) (f : Facts) : Err → Option Finding
   | .e0308 => if f.hasUnion && f.bitfield && o.manuallyDrop then some .union_bitfield_manually_drop else none
   | .e0392 => if o.flexDst && f.flexArray then some .flexarray_dst_unused_param else none
   | .dupName => if f.tagTypedefSame then some .tag_typedef_collision else none
+  | .identPanic => if o.representOps && f.cppScope then some .cxx_operator_invalid_ident else none
   | .e0423 => if o.newtypeAlias then some .newtype_alias_constant else none
   | .e0530 => if o.newtypeAlias || o.newtypeEnum then some .param_shadows_newtype else none
   | .e0588 => if f.packed && (f.aligned || f.blob) then some .packed_contains_aligned else none
